@@ -60,6 +60,9 @@ def lock_hooks(m):
         lambda m_, a, c: some(("rel", deref(a[0]))) if (deref(a[0]) & (1 << 31)) == 0 else NONE
     h["bitcoin::Sequence::enables_absolute_lock_time"] = lambda m_, a, c: deref(a[0]) != 0xffffffff
     h["bitcoin::TxIn::enables_lock_time"] = lambda m_, a, c: deref(a[0]).fields["sequence"] != 0xffffffff
+    # transaction-wide: nLockTime is in force when some input is not final (not what one input's OP_CLTV looks at)
+    h["bitcoin::Transaction::is_lock_time_enabled"] = \
+        lambda m_, a, c: any(deref(i).fields["sequence"] != 0xffffffff for i in deref(deref(a[0]).fields["input"]).items)
 
     # `<dyn Satisfier<Pk>>::check_older(&seq, n)`: dynamic dispatch on the (modelled) receiver type
     F = m.facts
